@@ -117,7 +117,8 @@ func (s *streamWriter) Invoke(msgs []actor.Envelope) {
 	}
 }
 
-func (s *streamWriter) init() {
+// init connects to the remote address and reports whether the stream is there.
+func (s *streamWriter) init() bool {
 	var (
 		rawconn    net.Conn
 		err        error
@@ -155,14 +156,16 @@ func (s *streamWriter) init() {
 	// and notify RemoteUnreachableEvent.
 	if rawconn == nil {
 		s.Shutdown()
-		return
+		return false
 	}
 
 	s.rawconn = rawconn
 	err = rawconn.SetDeadline(time.Now().Add(connIdleTimeout))
 	if err != nil {
 		slog.Error("failed to set deadline on raw connection", "err", err)
-		return
+		_ = rawconn.Close()
+		s.Shutdown()
+		return false
 	}
 
 	conn := drpcconn.NewWithOptions(rawconn, drpcconn.Options{
@@ -178,7 +181,7 @@ func (s *streamWriter) init() {
 	if err != nil {
 		slog.Error("receive", "err", err, "remote", s.writeToAddr)
 		s.Shutdown()
-		return
+		return false
 	}
 
 	s.stream = stream
@@ -195,6 +198,7 @@ func (s *streamWriter) init() {
 		)
 		s.Shutdown()
 	}()
+	return true
 }
 
 // TODO: is there a way that stream router can listen to event stream
@@ -213,8 +217,12 @@ func (s *streamWriter) Shutdown() {
 }
 
 func (s *streamWriter) Start() {
-	s.inbox.Start(s)
-	s.init()
+	// Our PID is registered, and can be addressed by anybody, while we are
+	// still dialing. The inbox is opened only once the stream is there:
+	// whatever arrives before that waits in the buffer.
+	if s.init() {
+		s.inbox.Start(s)
+	}
 }
 
 // noPID is the index that stands for "no PID" (a message without sender).
